@@ -34,6 +34,7 @@ RULE = ('one evaluation = one simulated run of a sampled workload (victim proces
 RULE += ' ' + 'One cache workload in seven uses a Disk subclass that names each value file after its key (a refusal with FileExistsError counts as a no-op).'
 RULE += ' ' + 'One deque scenario in eight works on a deque of 1001-1100 items (reverse / rotate / extend); after a kill inside reverse a later process reverses twice and must get the same deque.'
 RULE += ' ' + 'One cache workload in eight starts with 300-400 KB of value files without rows (debris of earlier kills) under a 300 KB size limit.'
+RULE += ' ' + "The first-open scenario compares the shards' size limits after the kill."
 ASSUMPTIONS = ['in-process kill: after the kill instant no task of the victim has any further effect and its descriptors are closed '
                '(what the OS does for SIGKILL); power loss is not modelled',
                'real-kill mode: single victim, kill instant derived from the seed (seam step or progress-handler tick)']
